@@ -556,10 +556,27 @@ class Engine:
         saved = self.path
         if self.path is None:
             self.path = Path(self, [])
+        self._loading = getattr(self, '_loading', 0) + 1
         try:
             self.exec_block(m.node.body, env)
         finally:
+            self._loading -= 1
             self.path = saved
+            reg = self.__dict__.setdefault('module_containers', {})
+            for k, v in m.globals.items():
+                if isinstance(v, (dict, list, set)):
+                    reg[id(v)] = '%s.%s' % (m.name, k)
+
+    def note_mutation(self, obj):
+        """A module-level container (table, registry, cache) is being modified by code under contract, after import: what the
+        functions compute then depends on earlier calls.  The contracts decide single calls and fixed short histories, and the
+        engine shares module objects between the paths of a harness, so nothing can be concluded: undecided (never silently
+        'held').  A violation found on the same run still stands."""
+        if getattr(self, '_loading', 0) == 0:
+            name = self.__dict__.get('module_containers', {}).get(id(obj))
+            if name is not None:
+                self.stale_notes.add('module-level state %s is modified at run time: results may depend on the history of earlier '
+                                     'calls, which these contracts do not quantify over (undecided)' % name)
 
     def lookup(self, ref):
         """'rsocket/stream_control.py::StreamControl.allocate_stream' -> PyFunc / PyClass / value"""
@@ -1149,6 +1166,8 @@ class Engine:
         if isinstance(obj, Module):
             obj.globals[name] = value
             return
+        if obj is None or isinstance(obj, (int, bool, str, bytes, SInt, SBool, SBytes, tuple)):
+            self.throw('AttributeError', "'%s' object has no attribute '%s'" % (type(obj).__name__, name))
         raise Unsupported('setattr on %r' % (obj,))
 
     # ------------------------------------------------------------------ calls
